@@ -61,7 +61,8 @@ func replaceDirect(text string, args []string) string {
 func runC11(r *vf.Run) {
 	r.Rule("one evaluation = one binding: either ReplacePlaceholders called directly (result compared with the substitution of the reference tree; input compared with its serialisation taken before), " +
 		"or one execution through database/sql (Prepare+Stmt.Query or direct DB.Query) whose rows were compared with the row oracle's table for the literal query; " +
-		"texts mix literals and placeholders (repeated, out of order, gaps), argument lists are exact, too few or too many; statements are executed 1-6 times with different arguments; " +
+		"texts mix literals and placeholders (repeated, out of order, gaps), argument lists are exact, too few or too many; statements are executed 1-6 times with different arguments; statement-lifetime scenarios keep several handles for one text alive (prepared twice and one closed, prepared inside a transaction, tx.Stmt, re-prepared after Close, 2-5 result sets of one statement open at once); " +
+		"typed integers: every Go integer type at its boundaries binds as its decimal text (the dataset also holds the texts a wrap-around would produce; an error is accepted only for unsigned values above MaxInt64); " +
 		"distinct_nontrivial = distinct (query text, argument list, path) triples")
 	r.Assume("arguments are strings and integers", "column names are identifiers of the query language")
 	n := r.Pick(60, 2500)
@@ -308,6 +309,8 @@ func runC11(r *vf.Run) {
 			}
 		}
 	})
+	c11Lifetimes(r)
+	c11TypedIntegers(r)
 	racePass(r)
 	r.Floor("Prepare and direct path both used", r.Covered("paths") == 2)
 	r.Floor("too-few, exact and too-many argument lists all seen", r.Covered("argument_counts") == 3)
